@@ -381,6 +381,16 @@ def run_case(case):
                     "the statement renders differently after the same object was rendered for another dialect (%s)" % other,
                     dialect=d, pos=pos, kind=kind, value=repr(v), fresh=sql, after=sql2)
         return res
+    # statements created through the dialect's query class: str() must give the dialect's literal as well
+    try:
+        alt = str(fn(Q, v))
+    except Exception as e:
+        alt = "!" + type(e).__name__
+    res.transitions += 1
+    if alt != sql:
+        res.violate("C05|%s|%s|%s|str-differs" % (pos, d, kind), "str() of the statement differs from its rendering with the dialect's context",
+                    dialect=d, pos=pos, kind=kind, value=repr(v), with_context=sql, str=alt)
+        return res
     b = benign_of(kind, v)
     bkey = (d, pos, repr(b))
     if bkey not in _BENIGN:
